@@ -244,7 +244,7 @@ def r4_input_language(ctx):
     fn = facts.need_fn(IH)
     ctx.touch(IH)
     pats = []
-    for o in Engine(facts, inline_filter=lambda n, c: False, max_paths=4000).run(IH):
+    for o in Engine(facts, inline_filter=lambda n, c: n.startswith('chess::input_handler::'), max_paths=4000).run(IH):
         for e in o.events:
             if e[0] == 'call' and e[1] == 'regex::Regex::new':
                 a = strval(e[2][0])
